@@ -129,7 +129,7 @@ func (w *Worker) soloResult(fx *Fixture, c call, o *Outcome) *callResult {
 	return r
 }
 
-var c10Feat = GenFeat{Commit: true, Lookup: true, Range: true, Hint: true, Wide: true, Bits: true, MaxOps: 10, MinOps: 2}
+var c10Feat = GenFeat{Commit: true, Lookup: true, Range: true, Hint: true, Wide: true, Bits: true, ScaledBool: true, MaxOps: 10, MinOps: 2}
 
 func c10Run(w *Worker, tape *simrt.Tape) *Outcome {
 	o := &Outcome{}
